@@ -29,6 +29,7 @@ THEOREMS = [
     "Verif.C05.crop_absent_iff_empty",
     "Verif.C05.crop_crop",
     "Verif.C05.keepMeta_spec",
+    "Verif.C05.write_cropped_meta_spec",
     "Verif.C05.roundHalfEven_nearest",
     "Verif.C05.roundHalfEven_tie_even",
     "Verif.C05.double_rounding_std",
@@ -51,6 +52,7 @@ THEOREMS = [
     "Verif.C05.channel_calibration_whole",
     "Verif.C05.pixels_split",
     "Verif.C05.cropped_kymo_lines",
+    "Verif.C05.cut_ok_necessary",
     "Verif.C05.attr_table_nodup",
     "Verif.C05.attr_lookup_spec",
     "Verif.C05.attr_naming_rule",
@@ -59,16 +61,24 @@ THEOREMS = [
     "Verif.C01.slice_samples",
 ]
 RULE = (
-    "corpus (F1 consequence: crop window ending more than one period before a channel; F7 periods 55/57/110 ns) + "
+    "corpus (F1 consequence: crop window ending more than one period before a channel; F7 periods 55/57/110 ns; periods 2^50, 1e9+1) + "
     "direct ops: _filter_calibration on all item lists over a 4-value time grid (<=3 items, quick) and random lists with "
-    "ties; sample-period read-back for every integer period 1..3000 (thorough: ..30000) and random periods up to 1e9; "
-    "omit patterns (literals, *, ?) against HDF5 paths, also judged by Python's fnmatch; + generated Bluelake-layout "
-    "files (format v1/v2; continuous/time-series/time-tag channels; calibration histories; markers, notes, a "
-    "kymograph) written with h5py, opened with lk.File: every channel read by path and by attribute, calibration of "
-    "every force channel (whole and sliced), then save_as with omit patterns or a crop window drawn around the "
-    "channel boundaries and a reopen, comparing every dataset/attribute with the source (uncropped) or with the "
-    "window filter (cropped). Non-trivial: file cases with >=1 channel where the crop window cuts at least one "
-    "channel properly or drops one, or an omit pattern removes a proper subset; direct ops with a non-empty answer."
+    "ties; sample-period write/read-back for every integer period 1..3000 (thorough: ..30000), random periods up to 2^50, "
+    "arbitrary stored rates around half-way periods, executed both in Lean's Float and exactly over Rat (flDouble); "
+    "round-half-even and one rounded division against the interpreter; omit patterns (literals, *, ?) against HDF5 paths, "
+    "also judged by Python's fnmatch, and the whole output tree (nested groups with/without attributes, bare parents); "
+    "channel_class on every (Kind spelling x dataset shape x rate attribute); to_dataset -> channel_class -> from_dataset, "
+    "its cropped variant and the twice-cropped variant on every small channel x window grid (in-memory HDF5) and random "
+    "channels (ns-epoch starts, periods up to 1e9); Calibration groups -> from_field -> slice -> calibration on a small "
+    "scope (entry absent / without time field / before / at / inside / at the end) and random histories; + generated "
+    "Bluelake-layout files (format v1/v2; continuous/time-series/time-tag channels; calibration histories incl. entries "
+    "without the time field; markers, notes, a kymograph) written with h5py, opened with lk.File: every channel read by "
+    "path and by attribute, calibration of every force channel (whole and sliced), then save_as with omit patterns or a "
+    "crop window drawn around the channel boundaries (40%: exported a second time with another window) and a reopen, "
+    "comparing every dataset/attribute with the source (uncropped) or with the window filter (cropped), and the keep/drop "
+    "decision and new time attributes of every time-stamped item. Non-trivial: file cases with >=1 channel where the crop "
+    "window cuts at least one channel properly or drops one, or an omit pattern removes a proper subset; direct ops with a "
+    "non-empty answer."
 )
 TRUSTED = [
     "IEEE-754 double division and Python's round(): modelled exactly over Rat (flDouble, roundHalfEven), proved to meet the standard model, and compared with the interpreter's own results on every run (ops c05.fl, c05.round, c05.rateq, c05.dtq)",
@@ -465,6 +475,13 @@ def file_plan(case):
         for path in sorted(exp):
             # the same observation against the model's slice -> to_dataset -> channel_class -> from_dataset chain
             plan.append((f"c05.cropread {src_tokens(exp[path])} {a} {b}", "cropread", path))
+        # time-stamped items: the item crops itself (or cannot), then the keep rule decides; the model is given what the
+        # item reported (observed through the public item[a:b]) and predicts presence and the new time attributes
+        seen = case.get("_obs", {}).get("keep", {})
+        for grp, key in (("Kymograph", "kymos"), ("Marker", "markers"), ("Note", "notes")):
+            for it in spec[key]:
+                sl = seen.get(f"{grp}/{it['name']}")
+                plan.append((f"c05.keepx {sl[0] if sl else 'E'} {sl[1] if sl else 'E'} {a} {b}", "keep", (grp, it["name"])))
         if case.get("crop2"):
             c, d = case["crop2"]
             for path in sorted(exp):
@@ -724,6 +741,20 @@ def _file_impl(case):
                                     flags.append(p in g and dict_equal(dict(node_src.attrs), dict(g[p].attrs)))
                             answers.append(enc_list(flags, enc_bool))
                             obs["omit_compare"] = compare_uncropped(f.h5, g, case["all_paths"], flags)
+                    elif kind == "keep":
+                        grp, name = payload
+                        if new is None:
+                            new = lk.File(out)
+                        try:
+                            it = f[grp][name][slice(*case["crop"])]
+                            obs.setdefault("keep", {})[f"{grp}/{name}"] = [int(it.start), int(it.stop)]
+                        except (IndexError, TypeError):
+                            obs.setdefault("keep", {})[f"{grp}/{name}"] = None
+                        if grp in new.h5 and name in new.h5[grp]:
+                            at = new.h5[grp][name].attrs
+                            answers.append(f"{int(at['Start time (ns)'])} {int(at['Stop time (ns)'])}")
+                        else:
+                            answers.append("N")
                     elif kind == "omittree":
                         with h5py.File(out, "r") as g:
                             answers.append(tree_status(f.h5, g, case["tree"]))
@@ -1497,6 +1528,9 @@ def extra_coverage(results):
                 hit("file:exported-twice")
             for (line, kind, payload), a in zip(file_plan(c), r["impl"]):
                 hit("file-op:" + kind)
+                if kind == "keep":
+                    sl = c.get("_obs", {}).get("keep", {}).get("/".join(payload))
+                    hit(f"file-keep:{payload[0]}:" + ("cannot-crop-itself" if sl is None else "dropped" if a == "N" else "kept"))
                 if kind in ("cal", "calslice"):
                     hit(f"file-{kind}:" + ("none-listed" if a == "[]" else "listed"))
             if any("Stop time (ns)" not in a_ for cal in c["spec"]["calibrations"] for a_ in cal["channels"].values()):
